@@ -1,5 +1,5 @@
 //@ module src/crypto/noise/mod.rs
-//@ harness c01_parse_and_verify_contract kind=proof tier=quick timeout=1200 covers=4
+//@ harness c01_parse_and_verify_contract kind=bounded tier=quick timeout=1200 covers=4 bound="identity key and signature of 0..=4 bytes (content symbolic, 32-byte DH key symbolic); the unbounded proof is the Verus unit noise_auth — this harness adds the literal domain string and the real Vec/concat code"
 //@ harness c01_noise_auth_canary kind=canary tier=quick timeout=120
 //
 // C01 — the identity check of the Noise handshake: parse_and_verify_peer_id(payload, dh_remote_pubkey).
